@@ -201,26 +201,43 @@ _active = [None]        # the Sched currently installed (one at a time per proce
 
 
 class _Writer(object):
-    """Unbuffered binary file whose writes are scheduling points (two chunks per write)."""
+    """Binary file opened for writing, with Python's default buffering made explicit: data reaches
+    the file when the buffer (8 KiB) overflows, on flush() and on close() - not on write().  Each
+    transfer to the file is split in two chunks, each its own scheduling point, so that readers can
+    observe the empty, partial and complete file."""
+
+    BUFSIZE = 8192
 
     def __init__(self, sched, actor, f, lab):
         self._s, self._a, self._f, self._lab = sched, actor, f, lab
+        self._buf = bytearray()
         self.closed = False
 
     def write(self, data):
         data = bytes(data)
+        self._buf += data
+        if len(self._buf) > self.BUFSIZE:
+            self._drain()
+        return len(data)
+
+    def _drain(self):
+        data = bytes(self._buf)
+        self._buf = bytearray()
         n = len(data)
+        if n == 0:
+            return
         cuts = [data] if n < 2 else [data[:n // 2], data[n // 2:]]
         for chunk in cuts:
             self._s.point(self._a, ("write", self._lab))
             self._f.write(chunk)
-        return n
 
     def flush(self):
+        self._drain()
         self._f.flush()
 
     def close(self):
         if not self.closed:
+            self._drain()
             self._s.point(self._a, ("close", self._lab))
             self._f.close()
             self.closed = True
@@ -229,7 +246,7 @@ class _Writer(object):
         return self._f.fileno()
 
     def tell(self):
-        return self._f.tell()
+        return self._f.tell() + len(self._buf)
 
     def writable(self):
         return True
@@ -250,7 +267,7 @@ class _Writer(object):
     def __del__(self):
         try:
             if not self.closed:
-                self._f.close()
+                self._f.close()      # like a killed process: buffered data is lost
         except Exception:
             pass
 
